@@ -102,6 +102,21 @@ Fixpoint flatten (s : rsec) (lvl : N) (t : rtree) {struct t} : list witem :=
   | RDir o kids => flatten_kids (fun k => flatten s (lvl + 1) k) lvl (rd16 s (o + 12)) (o + 16) 0 kids
   end.
 
+(* a tree laid out without sharing: the 8-byte entry records of its unfolding are pairwise disjoint
+   (no directory is referenced twice, no two entry arrays overlap) *)
+Definition entry_offsets (l : list witem) : list N :=
+  flat_map (fun w => match w with WItem i => [i_eoff i] | _ => [] end) l.
+Definition disjoint_records (offs : list N) : Prop := ForallOrdPairs (fun a b => a + 8 <= b \/ b + 8 <= a) offs.
+
+(* reachability among directories, read off the bytes: an entry of the directory at [o] with the directory bit refers to [o'] *)
+Definition child_dir (s : rsec) (o o' : N) : Prop :=
+  exists i, (i < N.to_nat (dir_count s o))%nat /\ B31 <= rd32 s (entry_pos o i + 4) /\ o' = rd32 s (entry_pos o i + 4) - B31.
+Inductive dir_path (s : rsec) : nat -> N -> N -> Prop :=
+| dp_nil o : dir_path s 0 o o
+| dp_step n o o1 o' : child_dir s o o1 -> dir_path s n o1 o' -> dir_path s (S n) o o'.
+(* some directory reachable from the root contains itself, directly or through descendants *)
+Definition cyclic (s : rsec) : Prop := exists o n m, dir_path s n 0 o /\ dir_path s (S m) o o.
+
 (* ------------------------------------------------------------------ 3. name matching *)
 Definition scalar (c : N) : bool := (c <? 55296) || ((57343 <? c) && (c <? 1114112)).
 Fixpoint utf16_encode (cs : list N) : list N :=
@@ -208,6 +223,18 @@ Fixpoint t_find_parts (lvl : N) (cur : fres ent) (sub : option (list witem)) (pa
         end
       end
     end
+  end.
+
+(* manifest(): type 24 -> first name -> first language *)
+Definition t_manifest (items : list witem) : fres region :=
+  d1 <-- t_get_dir 0 items (NId 24) ;; k1 <-- t_first 1 d1 ;; d2 <-- as_dir_l k1 ;; k2 <-- t_first 2 d2 ;; as_bytes_l k2.
+(* icons() / cursors(): every entry below the group type [ty], each with the bytes of its first language *)
+Definition t_groups (items : list witem) (ty : N) : list (fres (name * region)) :=
+  match t_get_dir 0 items (NId ty) with
+  | FOk d1 =>
+    map (fun k => nm <-- lift (i_name (fst k)) ;; d2 <-- as_dir_l k ;; rg <-- (k2 <-- t_first 2 d2 ;; as_bytes_l k2) ;; FOk (nm, rg))
+        (kids_of 1 d1)
+  | _ => []
   end.
 
 (* the consistency check must succeed exactly when the whole tree could be listed and every
